@@ -15,7 +15,9 @@ def props_for(name, meta):
     if name.startswith("revert-"):
         return {"revert-D1D2": ["C01", "C13"], "revert-D3": ["C13"], "revert-D4": ["C04", "C07"], "revert-D5": ["C07"],
                 "revert-D6": ["C09"], "revert-D8": ["C11"]}[name]
-    return [meta["property"]]
+    # a change can be seeded under one property and remove the gate that another property is
+    # about (e.g. the compile-time rejection of wrong type information): those checks run too
+    return [meta["property"]] + list(meta.get("also_check", []))
 
 def main():
     out = sys.argv[1]
